@@ -99,6 +99,12 @@ def run_core(ctx, mode):
         c["weights"] = "chain"
     tf3 = ctx.drive("hist", hc, hashseeds=hashseeds)
     ctx.validate(tf3, {c["id"]: c for c in hc}, driver="hist")
+    # comparisons whose sides are closer than the tolerance without being equal: the library runs with
+    # EPSILON=0.25, the states sit on a 1/8 grid, the spec is instantiated with the same tolerance
+    tc = [gen_core.jitter_states(rng, gen_core.gen_case(ctx.seed, 70000 + i, n_states=4, n_calls=3))
+          for i in range(100 if quick else 1500)]
+    tf4 = ctx.drive("core", tc, hashseeds=hashseeds, opts={"snaps": True}, env={"EPSILON": "0.25"})
+    ctx.validate(tf4, {c["id"]: c for c in tc}, driver="core", opts={"snaps": True}, eps="EpsQuarter")
     h = json.loads(open(tf2).readline())
     ctx.sample({"engine": "V", "history_id": h["id"], "text": h.get("text", "")[-500:],
                 "events": [e["c"] for e in h["ev"]][:12]})
